@@ -6,12 +6,16 @@ INSTR_DIR = os.path.join(vlib.BIN, "instrumented")
 QUEUE_FUNCS = "atomic.LoadPointer,atomic.CompareAndSwapPointer,atomic.AddInt32,atomic.LoadInt32"
 
 
-def instrument(rel, funcs):
-    """instruments /repo/<rel> into .bin/instr/<flattened name>; returns (path, error)"""
+def instrument(rel, funcs, pkg=None, src=None, tag=""):
+    """instruments /repo/<rel> (or the already instrumented file `src`) into
+    .bin/instrumented/<flattened name><tag>; returns (path, error)"""
     os.makedirs(INSTR_DIR, exist_ok=True)
-    out = os.path.join(INSTR_DIR, rel.replace("/", "__"))
+    out = os.path.join(INSTR_DIR, tag + rel.replace("/", "__"))
     tmp = out + ".tmp"
-    p = vlib.run([os.path.join(vlib.BIN, "instr"), os.path.join(vlib.REPO, rel), tmp, funcs], env=vlib.GOENV)
+    cmd = [os.path.join(vlib.BIN, "instr"), src or os.path.join(vlib.REPO, rel), tmp, funcs]
+    if pkg:
+        cmd.append(pkg)
+    p = vlib.run(cmd, env=vlib.GOENV)
     if p.returncode != 0:
         return None, "instrumenter failed on %s: %s" % (rel, p.stderr.strip()[-400:])
     vlib.write_if_changed(out, open(tmp).read())
